@@ -49,9 +49,13 @@ def calleeName : Callee → Except XErr (Option String)
   | .libDeep => .error (.attributeError "id")          -- cast(ast.Name, func.value).id
   | .other => .error (.notImplemented "Unknown call type")
 
-/-- node type for a call of `f` with `n` arguments, how many leading arguments are converted
-    (`none` = all of them), and whether the node is built by the unary branch -/
-def callKind (f : Option String) (n : Nat) : Except XErr (MType × Option Nat × Bool) :=
+def calleeIsMath : Callee → Bool
+  | .lib p _ => p == "math"
+  | _ => false
+
+/-- node type for a call of `f` (`isMath`: written `math.f`) with `n` arguments, how many leading arguments
+    are converted (`none` = all of them), and whether the node is built by the unary branch -/
+def callKind (f : Option String) (isMath : Bool) (n : Nat) : Except XErr (MType × Option Nat × Bool) :=
   let unknown : Except XErr (MType × Option Nat × Bool) :=
     if unknownCallRaises then .error (.notImplemented "Unknown function") else .ok (.function, none, false)
   match f with
@@ -62,7 +66,7 @@ def callKind (f : Option String) (n : Nat) : Except XErr (MType × Option Nat ×
       if arityChecked then (if n ≠ 1 then .error (.notImplemented "arity") else .ok (t, none, true))
       else (if n < 1 then .error .indexError else .ok (t, some 1, true))
     | none =>
-    match binaryTable.lookup f with
+    match (if binaryNumpyOnly && isMath then none else binaryTable.lookup f) with
     | some t =>
       if arityChecked then (if n ≠ 2 then .error (.notImplemented "arity") else .ok (t, none, false))
       else (if n < 2 then .error .indexError else .ok (t, some 2, false))
@@ -103,7 +107,7 @@ def convert : PyExpr → Except XErr MathML
       pure (.apply .fnPiecewise (ifexpChildren c x y))
   | .call f args => do
       let name ← calleeName f
-      let (t, k, isUnary) ← callKind name args.length
+      let (t, k, isUnary) ← callKind name (calleeIsMath f) args.length
       match k with
       | none => do
           let ms ← convertList args
